@@ -75,6 +75,16 @@ func checkColl3(r *ev.Run, k coll3, nOrig int, scales []float64, dirStride int) 
 		r.Violation(fam+"/"+kind, k.name+": "+msg+fmt.Sprintf(" [ray origin %v dir %v]", ray.Origin, ray.Direction),
 			rayCase{k.name, []float64{ray.Origin.X, ray.Origin.Y, ray.Origin.Z}, []float64{ray.Direction.X, ray.Direction.Y, ray.Direction.Z}, nil})
 	}
+	if k.approx > 0 {
+		// marching colliders step in length, not in ray parameter: always include a long direction vector
+		has := false
+		for _, sc := range scales {
+			has = has || sc >= 7
+		}
+		if !has {
+			scales = append(append([]float64{}, scales...), 7)
+		}
+	}
 	var origins []model3d.Coord3D
 	for i := 0; i < nOrig; i++ {
 		for j := 0; j < nOrig; j++ {
@@ -132,6 +142,10 @@ func checkColl3(r *ev.Run, k coll3, nOrig int, scales []float64, dirStride int) 
 									viol("normal-direction", fmt.Sprintf("normal %v at t=%g, outward normal of the reference surface is %v", h.Normal, h.Scale, wn), ray)
 								}
 							}
+						} else if sc, isSC := k.c.(*model3d.SolidCollider); isSC && sc.NormalBisectEpsilon > 0 {
+							if q := p.Add(h.Normal.Scale(sc.NormalBisectEpsilon)); !(k.sdf(q) <= 1e-9) {
+								viol("normal-direction", fmt.Sprintf("bisection normal %v: the point %g along it from the hit is still inside the solid (field %g)", h.Normal, sc.NormalBisectEpsilon, k.sdf(q)), ray)
+							}
 						} else if wn, _, smooth := ref.SmoothNormal(k.sdf, p, k.extent, k.feature); smooth && h.Normal.Dot(wn) <= 0 {
 							viol("normal-direction", fmt.Sprintf("approximate normal %v points inward (reference %v)", h.Normal, wn), ray)
 						}
@@ -176,6 +190,25 @@ func checkColl3(r *ev.Run, k coll3, nOrig int, scales []float64, dirStride int) 
 						viol("first-vs-reference", fmt.Sprintf("reference has %d crossings but FirstRayCollision exists=%v", len(ts), ok), ray)
 					} else if ok && !(math.Abs(first.Scale-ts[0])*ray.Direction.Norm() <= 3*k.approx) {
 						viol("first-vs-reference", fmt.Sprintf("first hit at %g, reference surface first crossed at %g", first.Scale, ts[0]), ray)
+					}
+					// where consecutive crossings (and the origin) are more than four sampling steps apart, nothing
+					// is "smaller than epsilon": every crossing must be reported, each within the same tolerance
+					sep := math.Inf(1)
+					for i, t := range ts {
+						prev := 0.0
+						if i > 0 {
+							prev = ts[i-1]
+						}
+						sep = math.Min(sep, (t-prev)*ray.Direction.Norm())
+					}
+					if sep > 4*k.approx {
+						bad := len(got) != len(ts)
+						for i := 0; !bad && i < len(ts); i++ {
+							bad = !(math.Abs(got[i]-ts[i])*ray.Direction.Norm() <= 3*k.approx)
+						}
+						if bad {
+							viol("crossings", fmt.Sprintf("collision parameters %v, reference crossings %v (all more than four sampling steps apart)", got, ts), ray)
+						}
 					}
 					continue
 				}
@@ -401,6 +434,15 @@ func colliders3(th bool) []coll3 {
 		out = append(out, coll3{"ProfileCollider(" + n2.Name + ")", pc, f, c, mx.Dist(mn)/2 + 0.75, 0.3, true, 0, nil, rayOK})
 	}
 	// solid-sampling collider (documented as approximate)
+	// the bisection normal estimator (random probe directions inside): unit, finite, and a step of the bisection
+	// radius along it leaves the solid - the estimator's own last test, which an unlucky draw cannot spoil
+	for _, nbe := range []float64{1e-4, 1e-2} {
+		for _, ns := range []int{0, 12} {
+			s := ref.Sphere(model3d.XYZ(0.2, -0.1, 0.3), 1)
+			out = append(out, coll3{fmt.Sprintf("SolidCollider(sphere,eps=0.05,normal-bisect=%g,samples=%d)", nbe, ns),
+				&model3d.SolidCollider{Solid: s.Obj.(model3d.Solid), Epsilon: 0.05, NormalBisectEpsilon: nbe, NormalSamples: ns}, s.SDF, s.Center, s.Extent, s.Feature, true, 0.05, nil, nil})
+		}
+	}
 	for _, eps := range []float64{0.05, 0.01} {
 		s := ref.Sphere(model3d.XYZ(0.2, -0.1, 0.3), 1)
 		out = append(out, coll3{fmt.Sprintf("SolidCollider(sphere,eps=%g)", eps), &model3d.SolidCollider{Solid: s.Obj.(model3d.Solid), Epsilon: eps}, s.SDF, s.Center, s.Extent, s.Feature, true, eps, nil, nil})
@@ -582,16 +624,71 @@ func checkSolidLattice(r *ev.Run, c latCase) {
 	}
 }
 
+// emptyStage: colliders over nothing (an empty mesh, an empty triangle list) report no collision of any kind.
+func emptyStage(r *ev.Run) {
+	cs := map[string]model3d.Collider{
+		"MeshToCollider(empty mesh)":       model3d.MeshToCollider(model3d.NewMesh()),
+		"GroupedTrianglesToCollider(none)": model3d.GroupedTrianglesToCollider(nil),
+		"GroupedCollidersToCollider(none)": model3d.GroupedCollidersToCollider(nil),
+	}
+	for name, c := range cs {
+		for _, o := range []model3d.Coord3D{{}, model3d.XYZ(1, -2, 0.5)} {
+			for _, d := range dirs3 {
+				r.Eval(1)
+				ray := &model3d.Ray{Origin: o, Direction: d}
+				calls := 0
+				n := c.RayCollisions(ray, func(model3d.RayCollision) { calls++ })
+				_, ok := c.FirstRayCollision(ray)
+				if n != 0 || calls != 0 || c.RayCollisions(ray, nil) != 0 || ok {
+					r.Violation("empty/ray", fmt.Sprintf("%s: ray %v+t%v: count %d, %d callbacks, first exists=%v", name, o, d, n, calls, ok),
+						rayCase{name, []float64{o.X, o.Y, o.Z}, []float64{d.X, d.Y, d.Z}, nil})
+				}
+			}
+			for _, rad := range []float64{0, 1, 1e6} {
+				r.Eval(1)
+				if c.SphereCollision(o, rad) {
+					r.Violation("empty/ball", fmt.Sprintf("%s: SphereCollision(%v, %g) = true", name, o, rad), rayCase{name, nil, nil, []float64{o.X, o.Y, o.Z, rad}})
+				}
+			}
+			if mc, isM := c.(model3d.MultiCollider); isM {
+				r.Eval(3)
+				tri := &model3d.Triangle{o, o.Add(model3d.X(1)), o.Add(model3d.Y(1))}
+				if len(mc.TriangleCollisions(tri)) != 0 || mc.SegmentCollision(model3d.NewSegment(o, o.Add(model3d.Z(3)))) || mc.RectCollision(model3d.NewRect(o.AddScalar(-5), o.AddScalar(5))) {
+					r.Violation("empty/shape-query", name+": a triangle, segment or box query reports a collision", rayCase{name, nil, nil, []float64{o.X, o.Y, o.Z, 0}})
+				}
+			}
+		}
+		if c.Min() != c.Max() && !(c.Min().X > c.Max().X) {
+			// an empty collider has no extent (the library uses a point at the origin)
+			r.Violation("empty/bounds", fmt.Sprintf("%s: bounds %v..%v have an extent", name, c.Min(), c.Max()), rayCase{name, nil, nil, nil})
+		}
+	}
+	m2 := model2d.MeshToCollider(model2d.NewMesh())
+	for _, d := range []model2d.Coord{{X: 1}, {Y: -1}, {X: 1, Y: 1}} {
+		r.Eval(1)
+		ray := &model2d.Ray{Origin: model2d.XY(0.5, 0.25), Direction: d}
+		_, ok := m2.FirstRayCollision(ray)
+		if m2.RayCollisions(ray, nil) != 0 || ok || m2.CircleCollision(ray.Origin, 3) {
+			r.Violation("empty/ray", "2d.MeshToCollider(empty mesh) reports a collision", rayCase{"2d.MeshToCollider(empty mesh)", nil, nil, nil})
+		}
+	}
+}
+
 func solidLattice(r *ev.Run, th bool) {
-	boxes := [][]float64{{0, 0, 0, 1, 1, 1}, {-1, -0.5, -0.25, 0.5, 1, 1.5}}
+	// the last two are slabs 1/8 thick (across z, across x): a marching step that is too long in *length* - a step
+	// computed from the parameter of a long direction vector, say - steps over them
+	boxes := [][]float64{{0, 0, 0, 1, 1, 1}, {-1, -0.5, -0.25, 0.5, 1, 1.5}, {-1, -0.5, 0.25, 0.5, 1, 0.375}, {0.5, 0, -1, 0.625, 2, 1}}
 	epss := []float64{0.25, 0.125, 0.05, 0.01}
 	if th {
 		epss = append(epss, 0.5, 0.0625, 0.1, 0.005, 0.03)
 	}
-	scales := []float64{1, 2, 0.5}
+	scales := []float64{1, 2, 0.5, 4, 16}
 	var cases []latCase
 	for _, b := range boxes {
 		for _, eps := range epss {
+			if thin := math.Min(b[3]-b[0], math.Min(b[4]-b[1], b[5]-b[2])); eps > thin/2 {
+				continue // "the result may be inaccurate for parts of the solid smaller than epsilon"
+			}
 			// lattice coordinates per axis: outside below, interior quarter points, outside above
 			coords := func(i int) []float64 {
 				w := b[3+i] - b[i]
@@ -661,6 +758,7 @@ func main() {
 	})
 	r.Isolate("colliders2", func() { check2D(r) })
 	r.Isolate("solid-lattice", func() { solidLattice(r, th) })
+	r.Isolate("empty", func() { emptyStage(r) })
 	r.Isolate("feature-balls", func() { ballStage(r, th) })
 	r.Isolate("shape-queries", func() { queryStage(r, th) })
 	r.Isolate("containment", func() { containStage(r, th); solidBallStage(r, th) })
